@@ -43,40 +43,52 @@ theorem hasBit_iff (w bit : Nat) : hasBit w bit = true ↔ w &&& bit ≠ 0 := by
 theorem hasBit_false_iff (w bit : Nat) : hasBit w bit = false ↔ w &&& bit = 0 := by
   simp [hasBit]
 
+/-- a record with only the hostname set, stored under 1.1.1.1:10480 (for the examples) -/
+def hostRec (h : List Char) : Stored := { addr := ⟨⟨1, 1, 1, 1⟩, 10480⟩, info := { hostname := h } }
+
+/-- the two hostname members of the bodies `serverBody` / `detailBody` make -/
+theorem serverBody_hostnames (rec : Stored) :
+    (serverBody rec).bind RespBody.hostnames = some (Styles.toHTML rec.info.hostname, Styles.clean rec.info.hostname) := rfl
+
+theorem detailBody_hostnames (rec : Stored) :
+    (detailBody rec).bind RespBody.hostnames = some (Styles.toHTML rec.info.hostname, Styles.clean rec.info.hostname) := rfl
+
 /-- `getserver.Execute` + `api.ViewServer`: a 200 comes only from a stored record with the details
-bit, and its body is made from the stored hostname; every other answer has no server data -/
-theorem viewExecute_body (st : SrvState) :
+bit, and its body is `model.ServerDetail` made from the stored record; every other answer has no
+server data -/
+theorem viewExecute_full (st : SrvState) :
     ((viewExecute st).status = 200 →
-      ∃ w qp h, st = .present w qp h ∧ w &&& 8 ≠ 0 ∧
-        (viewExecute st).body = some (Styles.toHTML h, Styles.clean h) ∧ (viewExecute st).effect = .none) ∧
+      ∃ w qp rec, st = .present w qp rec ∧ w &&& 8 ≠ 0 ∧
+        (viewExecute st).body = some (.detail (serverDetailJsonOf rec)) ∧ (viewExecute st).effect = .none) ∧
     ((viewExecute st).status ≠ 200 → (viewExecute st).body = none) := by
   cases st with
   | absent => simp [viewExecute]
-  | present w qp h =>
+  | present w qp rec =>
     by_cases h1 : hasBit w dsDetails = true
     · have hb : w &&& 8 ≠ 0 := (hasBit_iff w 8).mp h1
-      have e : viewExecute (.present w qp h) = ⟨200, serverBody h, .none⟩ := by
+      have e : viewExecute (.present w qp rec) = ⟨200, detailBody rec, .none⟩ := by
         simp only [viewExecute, h1, if_true]
       rw [e]
-      exact ⟨fun _ => ⟨w, qp, h, rfl, hb, rfl, rfl⟩, fun hne => absurd rfl hne⟩
+      exact ⟨fun _ => ⟨w, qp, rec, rfl, hb, rfl, rfl⟩, fun hne => absurd rfl hne⟩
     · simp only [viewExecute, h1]
       simp
 
-/-- `addserver.Execute` + `api.AddServer`: the same, and a 200 stores and queues nothing -/
-theorem addExecute_body (a : Addr) (st : SrvState) :
+/-- `addserver.Execute` + `api.AddServer`: the same with `model.Server`, and a 200 stores and queues
+nothing -/
+theorem addExecute_full (a : Addr) (st : SrvState) :
     ((addExecute a st).status = 200 →
-      ∃ w qp h, st = .present w qp h ∧ w &&& 8 ≠ 0 ∧
-        (addExecute a st).body = some (Styles.toHTML h, Styles.clean h) ∧ (addExecute a st).effect = .none) ∧
+      ∃ w qp rec, st = .present w qp rec ∧ w &&& 8 ≠ 0 ∧
+        (addExecute a st).body = some (.server (serverJsonOf rec)) ∧ (addExecute a st).effect = .none) ∧
     ((addExecute a st).status ≠ 200 → (addExecute a st).body = none) := by
   cases st with
   | absent => simp [addExecute]
-  | present w qp h =>
+  | present w qp rec =>
     by_cases h1 : hasBit w dsDetails = true
     · have hb : w &&& 8 ≠ 0 := (hasBit_iff w 8).mp h1
-      have e : addExecute a (.present w qp h) = ⟨200, serverBody h, .none⟩ := by
+      have e : addExecute a (.present w qp rec) = ⟨200, serverBody rec, .none⟩ := by
         simp only [addExecute, h1, if_true]
       rw [e]
-      exact ⟨fun _ => ⟨w, qp, h, rfl, hb, rfl, rfl⟩, fun hne => absurd rfl hne⟩
+      exact ⟨fun _ => ⟨w, qp, rec, rfl, hb, rfl, rfl⟩, fun hne => absurd rfl hne⟩
     · by_cases h2 : (hasBit w dsPortRetry || hasBit w dsDetailsRetry) = true
       · simp only [addExecute, h1, h2]
         simp
@@ -85,5 +97,31 @@ theorem addExecute_body (a : Addr) (st : SrvState) :
           simp
         · simp only [addExecute, h1, h2, h3]
           simp
+
+/-- the two hostname members of a 200 of `viewExecute` are made from the stored hostname -/
+theorem viewExecute_body (st : SrvState) :
+    ((viewExecute st).status = 200 →
+      ∃ w qp rec, st = .present w qp rec ∧ w &&& 8 ≠ 0 ∧
+        (viewExecute st).hostnames = some (Styles.toHTML rec.info.hostname, Styles.clean rec.info.hostname) ∧
+        (viewExecute st).effect = .none) ∧
+    ((viewExecute st).status ≠ 200 → (viewExecute st).body = none) := by
+  refine ⟨fun h => ?_, (viewExecute_full st).2⟩
+  obtain ⟨w, qp, rec, hst, hw, hb, he⟩ := (viewExecute_full st).1 h
+  exact ⟨w, qp, rec, hst, hw, by simp only [Resp.hostnames, hb]; rfl, he⟩
+
+/-- the same for `addExecute` -/
+theorem addExecute_body (a : Addr) (st : SrvState) :
+    ((addExecute a st).status = 200 →
+      ∃ w qp rec, st = .present w qp rec ∧ w &&& 8 ≠ 0 ∧
+        (addExecute a st).hostnames = some (Styles.toHTML rec.info.hostname, Styles.clean rec.info.hostname) ∧
+        (addExecute a st).effect = .none) ∧
+    ((addExecute a st).status ≠ 200 → (addExecute a st).body = none) := by
+  refine ⟨fun h => ?_, (addExecute_full a st).2⟩
+  obtain ⟨w, qp, rec, hst, hw, hb, he⟩ := (addExecute_full a st).1 h
+  exact ⟨w, qp, rec, hst, hw, by simp only [Resp.hostnames, hb]; rfl, he⟩
+
+/-- `boolToInt` as a JSON number -/
+theorem atom_boolToInt (b : Bool) : JAtom.int ↑(boolToInt b) = JAtom.int (if b then 1 else 0) := by
+  cases b <;> rfl
 
 end Swat4.Rest
